@@ -11,7 +11,7 @@ func init() {
 	register(&Prop{
 		ID:         "C04",
 		Title:      "Paginating with any Limit yields the same result as one unpaginated read",
-		Decided:    "page accounting (count, scanned, limit) is arithmetic over run-time values and is NOT decided. Decided are four necessary conditions visible in the code: (R1) ExclusiveStartKey and Limit of the request reach the search and the LastEvaluatedKey of the response is the second result of the search, through conversion only, in all four client sites; (R2) the key handed out as LastEvaluatedKey is built from the last *evaluated* item (the variable assigned on every non-skipped iteration, not only on matches), contains the table's key attributes and, when reading through an index, that index's key attributes, and the incoming start key is rendered with the table's key schema; (R3) resuming must be positional (ordered comparison with the start key, or a search for its position): resuming at the first key *equal* to the start key never resumes once that item has been deleted; (R4) the error of rendering a malformed start key is not discarded (= C13.R2 at that site); (R5) the LastEvaluatedKey a client hands out and the ExclusiveStartKey it takes back pass through the adapters' attribute mappers, and resuming compares key TEXT: every S and N text is carried verbatim in both directions (= C10.R6) – an adapter that normalises a number on the way out hands out a key that matches no stored key, and the next page is empty.",
+		Decided:    "page accounting (count, scanned, limit) is arithmetic over run-time values and is NOT decided. Decided are four necessary conditions visible in the code: (R1) ExclusiveStartKey and Limit of the request reach the search and the LastEvaluatedKey of the response is the second result of the search, through conversion only, in all four client sites; (R2) the key handed out as LastEvaluatedKey is built from the last *evaluated* item (the variable assigned on every non-skipped iteration, not only on matches), contains the table's key attributes and, when reading through an index, that index's key attributes, and the incoming start key is rendered with the table's key schema; (R3) resuming must be positional (ordered comparison with the start key, or a search for its position): resuming at the first key *equal* to the start key never resumes once that item has been deleted; (R4) the error of rendering a malformed start key is not discarded (= C13.R2 at that site); (R5) the LastEvaluatedKey a client hands out and the ExclusiveStartKey it takes back pass through the adapters' attribute mappers, and resuming compares key TEXT: every S and N text is carried verbatim in both directions (= C10.R6) – an adapter that normalises a number on the way out hands out a key that matches no stored key, and the next page is empty; (R6) the search loop is left only by exhaustion or by the page limit (= C02.R8): any other early exit is decided per call, so how much a request returns depends on where the page boundaries fall.",
 		NotDecided: "'at most Limit items per page', 'finitely many pages', absence of duplicates and of losses at page boundaries, boundaries inside runs of equal index keys – all consequences of the counting arithmetic (shouldCountItem / shouldBreakPage / shouldReturnNextKey / GetKeyAt), which no sound static argument in reach bounds. An off-by-one that keeps the code shape is invisible to this check.",
 		Rules: []RuleDef{
 			{ID: "R1", Desc: "start key, limit and last key are plumbed through (T-FLOW)", Run: c04R1},
@@ -39,6 +39,7 @@ func init() {
 					e.obs[i].Rule = "R5"
 				}
 			}},
+			{ID: "R6", Desc: "a page visits every position up to its limit: the search loop is left only by exhaustion or by the page limit (= C02.R8)", Run: aliasRule("R6", c02R8, nil)},
 		},
 	})
 }
@@ -214,7 +215,8 @@ func c04R3(e *Engine) {
 	if !e.anchor("R3", "core.QueryInput.started", f == nil) {
 		return
 	}
-	n := 0
+	n, n7 := 0, 0
+	_ = n7
 	for _, fn := range e.funcs("core") {
 		instrs(fn, func(in ssa.Instruction) {
 			st, ok := in.(*ssa.Store)
@@ -244,6 +246,10 @@ func c04R3(e *Engine) {
 				if bt != "string" {
 					continue
 				}
+				// the comparison is between the primary key of the visited position and the rendered start key
+				n7++
+				okOperands, why := e.resumeOperands(fn, b)
+				e.check(okOperands, "R3", construct+":compares-primary-keys", e.ipos(b), "the resume test compares the primary key of the visited position with the start key rendered by the table's key schema %s", why)
 				switch b.Op {
 				case token.EQL, token.NEQ:
 					// governs as an equality only on its "equal" side
@@ -273,4 +279,45 @@ func c04R3(e *Engine) {
 	if n == 0 {
 		e.undecided("R3", "core:resume-test", "-", "no place sets QueryInput.started to true")
 	}
+}
+
+// resumeOperands: one operand of the resume comparison is the value the position step hands back as the primary key of the
+// visited position (a result of fn itself), the other is the start key as rendered by the table's key schema – nothing
+// else (an index key is not unique: resuming by it restarts at the first entry of a run of equal index keys).
+func (e *Engine) resumeOperands(fn *ssa.Function, b *ssa.BinOp) (bool, string) {
+	isPositionKey := func(v ssa.Value) bool {
+		for _, r := range returnsOf(fn) {
+			rv := retVals(r)
+			if len(rv) > 0 && strip(rv[0]) == strip(v) {
+				return true
+			}
+		}
+		return false
+	}
+	isStartKey := func(v ssa.Value) (bool, string) {
+		os := e.origins(v)
+		if len(os) == 0 {
+			return false, "no origin"
+		}
+		for _, o := range os {
+			if o == `const:""` {
+				continue
+			}
+			if strings.HasPrefix(o, "getkey(schema=field:Table.KeySchema") {
+				continue
+			}
+			return false, o
+		}
+		return true, ""
+	}
+	for _, pair := range [][2]ssa.Value{{b.X, b.Y}, {b.Y, b.X}} {
+		if !isPositionKey(pair[0]) {
+			continue
+		}
+		if ok, why := isStartKey(pair[1]); !ok {
+			return false, "(the start-key operand also comes from " + why + ")"
+		}
+		return true, ""
+	}
+	return false, "(neither operand is the primary key the position step returns)"
 }
